@@ -1541,6 +1541,9 @@ def do_replacement_cmake(line: str, at_only: bool,
                     if not match:
                         value = variable_get(varname)
                         line = line[:index] + value + line[next_at+1:]
+                        # continue after the inserted value: it is data, not template text
+                        index += len(value)
+                        continue
 
             elif not at_only and line[index:index+2] == '${':
                 bracket_count = 1
@@ -1581,6 +1584,9 @@ def do_replacement_cmake(line: str, at_only: bool,
 
                     value = variable_get(varname)
                     line = line[:index] + value + line[end_bracket:]
+                    # continue after the inserted value: it is data, not template text
+                    index += len(value)
+                    continue
 
             index += 1
 
